@@ -135,6 +135,7 @@ func main() {
 				runRule(ru, p, r)
 			}
 		}
+		runControls(spec, r, *verif)
 		if spec.ID != "" && *tier == "thorough" {
 			runThoroughExtras(spec, progs, cfgs, r, abs)
 		}
